@@ -232,7 +232,11 @@ void prop(DP &dp, const ref::Bytes &sched, Ctx &ctx) {
 		case 12: {  // reverser state (vendor key = configured CV)
 			const cfg::Board *b = e.pick_board(true, &node);
 			std::string name = std::to_string(30000 + dp.range(0, 300));
-			if (b && b->in_track && !b->reversers.empty() && dp.chance(215)) name = b->reversers[dp.pick((unsigned) b->reversers.size())].cv;
+			if (b && b->in_track && !b->reversers.empty() && dp.chance(215)) {
+				name = b->reversers[dp.pick((unsigned) b->reversers.size())].cv;
+				// near misses of a configured key: a proper prefix (down to the empty name) or the key with one more digit
+				if (dp.chance(50)) name = dp.flag() ? name.substr(0, dp.pick((unsigned) name.size())) : name + (char) ('0' + dp.pick(10));
+			}
 			std::string val(1, (char) ('0' + dp.pick(5)));
 			if (dp.chance(60)) val += (char) ('0' + dp.pick(10));
 			m.type = M::VENDOR;
